@@ -127,6 +127,17 @@ theorem spawned_error_means_not_run (p : SProg) (fuel : Nat) (st : SSt) (key x :
     | none => simp [exec, hs]
     | some cnt => rw [spawned_present_returns p fuel st key x cnt hs] at h; cases h
 
+/-- **`syscall_once`** runs the function of a `syscall` key on fresh state (`cnt = 0`), returns its output and neither uses
+    nor touches the cached system of that key: the stored counter is what it was. -/
+theorem once_leaf (p : SProg) (fuel : Nat) (st : SSt) (key x : Nat) (hops : p.ops .f key 0 = []) (hwq : st.wq = []) :
+    exec p (fuel + 1) st (.call ⟨.o, key, x⟩) = (st.emit (.enter .f key 0 x), some (x * 100 + 0)) := by
+  simp only [exec]
+  rw [runBody_leaf (exec p fuel) p st .f key key 0 x hops (fun s hs => flush_empty p fuel s hs) hwq]
+
+theorem once_leaves_cache (p : SProg) (fuel : Nat) (st : SSt) (key x : Nat) (hops : p.ops .f key 0 = []) (hwq : st.wq = []) :
+    (exec p (fuel + 1) st (.call ⟨.o, key, x⟩)).1.fstore = st.fstore := by
+  rw [once_leaf p fuel st key x hops hwq]; rfl
+
 /-- Non-vacuity: a fresh world, one leaf call. -/
 example : (exec ⟨fun _ _ _ => [], fun _ _ => false⟩ 2 ({} : SSt) (.call ⟨.f, 0, 5⟩)).2 = some 500 := by
   rw [syscall_leaf _ 1 _ 0 5 rfl rfl]; rfl
